@@ -26,9 +26,10 @@ theorem mkCell_ident {ident : List Int} {lo hi : List α} {c : Cell α} (h : mkC
   · cases h; exact ⟨rfl, rfl, rfl⟩
 
 omit [Add α] [Sub α] [Neg α] in
-theorem buildCells_ident (o : Ops α) (st : Stepper α) (fuel : Nat) (n : List Int) (side : List α) (cp : List Int) :
+theorem buildCells_ident (o : Ops α) (st : Stepper α) (fuel : Nat) (n : List Int) (side lengths : List α)
+    (cp : List Int) :
     ∀ (k : Nat) (summed : Int) (ident : List Int) (cells : List (Cell α)),
-      buildCells o st fuel n side cp k summed ident = .ok cells →
+      buildCells o st fuel n side lengths cp k summed ident = .ok cells →
       cells.length = k ∧ ∀ j (h : j < cells.length), cells[j].ident = (incr n)^[j] ident := by
   intro k
   induction k with
@@ -63,6 +64,7 @@ theorem buildCells_ident (o : Ops α) (st : Stepper α) (fuel : Nat) (n : List I
 theorem expandPerSide_length (dim : Nat) (c : List Int) : (expandPerSide dim c).length = dim := by
   simp [expandPerSide]
 
+omit [Add α] [Sub α] [Neg α] in
 /-- **the constructor establishes the index structure** (any scalar, any stepper, any fuel) -/
 theorem create_wf (o : Ops α) (st : Stepper α) (fuel : Nat) (periodic : Bool) (lengths : List α)
     (cps : List Int) (layers : Int) (s : System α)
@@ -89,7 +91,7 @@ theorem create_wf (o : Ops α) (st : Stepper α) (fuel : Nat) (periodic : Bool) 
             simp only [List.any_eq_true, decide_eq_true_eq, not_exists, not_and, not_le] at hpos
             have := hpos x hx; omega
           have hlay' : 0 ≤ layers := by simpa using hlay
-          obtain ⟨hl, hi⟩ := buildCells_ident o st fuel _ _ _ _ _ _ _ hcells
+          obtain ⟨hl, hi⟩ := buildCells_ident o st fuel _ _ _ _ _ _ _ _ hcells
           have hN := numberOfCells_pos hpos'
           refine ⟨⟨hpos', expandPerSide_length _ _, rfl, ?_, ?_, hlay'⟩, rfl, rfl, rfl, rfl, rfl⟩
           · simp only [List.size_toArray, hl]; omega
